@@ -105,7 +105,14 @@ func (t *Ticket) Unmarshal(b []byte) error {
 
 // Marshal the Ticket.
 func (t *Ticket) Marshal() ([]byte, error) {
-	b, err := asn1.Marshal(*t)
+	// Only the wire fields are marshaled. The decrypted part must never be included.
+	tk := Ticket{
+		TktVNO:  t.TktVNO,
+		Realm:   t.Realm,
+		SName:   t.SName,
+		EncPart: t.EncPart,
+	}
+	b, err := asn1.Marshal(tk)
 	if err != nil {
 		return nil, err
 	}
